@@ -350,12 +350,41 @@ def systematic(ctx, workers, nchunks, budget_s, fine):
 # ------------------------------------------------------------------------------------------------
 # real processes
 
+def index_n_case(rng):
+    """default mode with two or three anchored adapters (the adapter index is built in every worker) and many reads whose adapter region holds N's
+    at different places, with and without a further substitution: what a read gets must not depend on which reads its worker saw before"""
+    k = rng.randint(2, 3)
+    front = rng.random() < 0.5
+    ads = [pipe.rs(rng, 10) for _ in range(k)]
+    argv = []
+    for i, a in enumerate(ads):
+        argv += ["-g" if front else "-a", f"a{i}=" + ("^" + a if front else a + "$")]
+    argv += ["-o", "{dir}/o1.fastq"]
+    reads = []
+    for i in range(rng.randint(30, 50)):
+        a = list(rng.choice(ads))
+        for _ in range(rng.choice([1, 1, 2])):
+            a[rng.randrange(len(a))] = "N"
+        if rng.random() < 0.6:
+            j = rng.randrange(len(a))
+            if a[j] != "N":
+                a[j] = rng.choice([c for c in "ACGT" if c != a[j]])
+        a = "".join(a)
+        body = pipe.rs(rng, rng.randint(5, 15))
+        s_ = a + body if front else body + a
+        reads.append((f"r{i}", s_, "I" * len(s_)))
+    return dict(argv=argv, paired=False, reads1=reads, reads2=None, with_qual=True, interleaved_in=False, focus=("index-n",))
+
+
 def real_runs(ctx, n_runs, budget_s):
     rng = ctx.rng
     t0 = time.time()
     done = 0
     while done < n_runs and time.time() - t0 < budget_s:
         case = gen_c06_case(rng)
+        if rng.random() < 0.2:
+            case = index_n_case(rng)
+            ctx.count("real-processes:index-with-N-reads")
         if case["paired"] and rng.random() < 0.4:
             # paired-end data in ONE interleaved input file (the reader process then chunks a single file; the workers still see pairs)
             if "--interleaved" not in case["argv"]:
